@@ -261,11 +261,55 @@ func ruleStoreAdmission(c *Ctx) {
 	}
 }
 
+// ruleStoreRMW: a store record is changed by cloning the cached record with
+// options and putting the clone back. Reading the cached record and publishing
+// the clone must happen under one hold of the cluster lock — a lifecycle
+// command that commits in between is otherwise undone by the stale clone
+// (a tombstone comes back to life through a heartbeat).
+func ruleStoreRMW(c *Ctx) {
+	P := c.P
+	rule := c.Prop + "/store-rmw-atomic"
+	corePut := P.Method("server/core", "BasicCluster", "PutStore")
+	getStore := P.Method("server/cluster", "RaftCluster", "GetStore")
+	sites, _ := c.nonScaffoldCallers(corePut)
+	done := map[*ssa.Function]bool{}
+	n := 0
+	for _, s := range sites {
+		fn := s.Caller
+		if fnPkgPath(fn) != modPath+"/server/cluster" || done[fn] {
+			continue
+		}
+		done[fn] = true
+		if len(callsIn(fn, false, F(getStore))) == 0 {
+			continue
+		}
+		n++
+		c.atomicRMW(rule, fn, F(getStore), F(corePut))
+	}
+	if n == 0 {
+		c.Undec(rule, "functions that read a store and put it back", "at least one", "", "")
+	}
+}
+
+// ruleAddressScanAlways: the duplicate-address scan is part of every accepted
+// put — also of a known store id re-registering with a new address.
+func ruleAddressScanAlways(c *Ctx) {
+	P := c.P
+	rule := c.Prop + "/admission"
+	impl := P.Method("server/cluster", "RaftCluster", "putStoreImpl")
+	putLocked := F(P.Method("server/cluster", "RaftCluster", "putStoreLocked"))
+	getStores := F(P.Method("server/cluster", "RaftCluster", "GetStores"))
+	scanned := &calledEv{name: "the other stores were enumerated (GetStores)", match: instrCallMatcher(getStores)}
+	c.need(rule, impl, "call putStoreLocked", instrCallMatcher(putLocked), []Ev{scanned}, all,
+		"every put that is persisted went through the duplicate-address scan, whether the store id is new or known")
+}
+
 func init() {
 	register("C14", "Store lifecycle is a one-way state machine and stays durable", func(c *Ctx) {
 		c.Group("C14/state-machine", "State is assigned only by three constant options; each is applied only under its typestate guard on the store read under the cluster write lock (held until the new state is published)", func() { ruleStoreStateMachine(c) })
 		c.Group("C14/bury-when-empty", "buryStore is called only under GetStoreRegionCount(id) == 0; only tombstones are deleted", func() { ruleBuryWhenEmpty(c) })
 		c.Group("C14/persist-before-serve", "the served store set changes only after the storage write succeeded, with the same record; heartbeats publish volatile attributes only", func() { ruleStorePersistBeforeServe(c) })
-		c.Group("C14/admission", "id 0 and duplicate addresses (among live stores) are rejected; tombstones are refused at the RPC", func() { ruleStoreAdmission(c) })
+		c.Group("C14/admission", "id 0 and duplicate addresses (among live stores) are rejected; tombstones are refused at the RPC", func() { ruleStoreAdmission(c); ruleAddressScanAlways(c) })
+		c.Group("C14/store-rmw-atomic", "reading a cached store and publishing its modified clone happen under one hold of the cluster lock", func() { ruleStoreRMW(c) })
 	})
 }
